@@ -3,6 +3,7 @@ REGISTRY = {
     "C01": "core",
     "C02": "core",
     "C03": "core",
+    "C04": "c04",
     "C05": "c05",
     "C06": "core",
     "C07": "core",
